@@ -580,6 +580,10 @@ class TupimageTerminal:
         effective_scale = self._config.global_scale * (
             local_scale if local_scale is not None else 1.0
         )
+        # The aspect ratio does not depend on the scale: a dimension that is derived
+        # from the other one is computed from the unscaled size, so that the rounding
+        # of `size * scale` cannot add a spurious row or column.
+        orig_width, orig_height = width, height
         width *= effective_scale
         height *= effective_scale
 
@@ -594,18 +598,26 @@ class TupimageTerminal:
         elif cols is None:
             # If only one dimension is specified, compute the other one to match
             # the aspect ratio as close as possible.
-            cols = math.ceil(rows * cell_height * width / (height * cell_width))
+            cols = math.ceil(
+                rows * cell_height * orig_width / (orig_height * cell_width)
+            )
         elif rows is None:
-            rows = math.ceil(cols * cell_width * height / (width * cell_height))
+            rows = math.ceil(
+                cols * cell_width * orig_height / (orig_width * cell_height)
+            )
 
         # Make sure that automatically computed rows and columns are within the
         # limits.
         if cols_auto_computed and cols > max_cols:
             cols = max_cols
-            rows = math.ceil(cols * cell_width * height / (width * cell_height))
+            rows = math.ceil(
+                cols * cell_width * orig_height / (orig_width * cell_height)
+            )
         if rows_auto_computed and rows > max_rows:
             rows = max_rows
-            cols = math.ceil(rows * cell_height * width / (height * cell_width))
+            cols = math.ceil(
+                rows * cell_height * orig_width / (orig_height * cell_width)
+            )
         # Limit them again, just in case.
         cols = max(1, min(cols, max_cols))
         rows = max(1, min(rows, max_rows))
